@@ -1,6 +1,14 @@
 (* C17 — Derived geometry follows the format's indexing conventions.
    Only statements, each closed by [exact] (short glue allowed) and followed by Print Assumptions.
-   The rotation / dip maps are universally quantified functions Q -> V3 -> V3 (the trigonometry is a parameter). *)
+
+   ROTATION AND DIP ARE PARAMETERS.  In the model files the maps [rotm a p] (p rotated by a degrees about the vertical
+   axis) and [dipm a p] (p tilted by a degrees about the u axis) are Section variables; here every theorem is
+   universally quantified over arbitrary functions [rotm dipm : Q -> V3 -> V3].  "Rotated (and dipped) about the origin"
+   is therefore carried by the SHAPE of the result, [rotm angle (dipm dip (local centre)) + origin]: the rotation is
+   applied to the local centre before the origin is added, with the object's current angle.  What the theorems decide
+   is the index layout, the local centre formulas, the count, cache coherence and the tiling; that the code's matrices
+   are the rotations of the format is NOT proved (float trigonometry) — it is checked by the correspondence on multiples
+   of 90 degrees ([rot_exact], [dip_exact]) and by the oracle's independent formulas. *)
 From GV Require Import Prelude.Base Model.GridIndex Model.Octree Model.Parts
   Proofs.GridIndexProofs Proofs.OctreeProofs Proofs.PartsProofs.
 From Coq Require Import QArith.
